@@ -4,6 +4,7 @@ package checks
 
 import (
 	"fmt"
+	"regexp"
 	"strings"
 
 	lucene "github.com/grindlemire/go-lucene"
@@ -217,6 +218,9 @@ func c03Eval(c core.Case) (res core.Result) {
 		}
 		res.Nontrivial = true
 		res.Hash = core.Hash64(sql)
+		// the observation class carries the shape of the SQL, so that a ledgered leaf rendered in
+		// a *different* wrong way is a different signature
+		cls += " => " + sqlShape(sql)
 		pr := sqlref.NewProbe()
 		pr.AddLeaf(l)
 		for _, row := range pr.Rows(fieldTypes, 4000) {
@@ -301,6 +305,16 @@ func c03Eval(c core.Case) (res core.Result) {
 		}
 	}
 	return
+}
+
+var (
+	shapeStr = regexp.MustCompile(`'(?:[^']|'')*'`)
+	shapeNum = regexp.MustCompile(`-?\b\d+(?:\.\d+)?(?:[eE][-+]?\d+)?\b`)
+)
+
+// sqlShape abstracts constants: strings to S, numbers to N.
+func sqlShape(sql string) string {
+	return shapeNum.ReplaceAllString(shapeStr.ReplaceAllString(sql, "S"), "N")
 }
 
 func c03Shrink(c core.Case) []core.Case {
